@@ -223,7 +223,7 @@ def opCallPartial (c : Json) : R Json := do
   -- `config_for` itself fails (make_dataclass: mutable default) before anything is parsed
   if (c.getObjValAs? Bool "mutable_field_default").toOption.getD false then
     return Json.mkObj [("o", "raise"), ("exc", "ValueError")]
-  match partialRun parse args kw with
+  match partialRun sig parse args kw with
   | .call cl =>
     let bound := match bind sig cl.args cl.kwargs with
       | some b => jpairs b
